@@ -20,6 +20,7 @@ CONSTANTS
   DTs = {1}
   Jumps <- JumpsVer
   GenVersions = {1, 2}
+  VSet = 0
   MaxHeight = 2300
   FocusVals = {2}
 VIEW GView
